@@ -204,6 +204,7 @@ def run(prog: Program, rep: Report, tier: str):
             dom = fa.cfg.dominates(rn, sn) and rn != sn
             # cut back to the dataset length at the repeat site
             cut = False
+            cut_open = False
             for cn in sorted(fa.cfg.nodes):
                 if not (cn == rn or (fa.cfg.dominates(rn, cn) and (cn == sn or fa.cfg.dominates(cn, sn)))):
                     continue
@@ -218,7 +219,29 @@ def run(prog: Program, rep: Report, tier: str):
                             for c in ast.walk(fa.expand(x.value, cn)))
                         if is_rep:
                             up = fa.sym.term(x.slice.upper, cn)
-                            cut = cut or up == ("call", ("global", "len"), (("self", "dataset"),), ())
+                            size_t_ = ("call", ("global", "len"), (("self", "dataset"),), ())
+                            if up[0] == "self" and len(up) == 2:
+                                # the bound is a public property of the sampler: judged by what the property returns.  All arms
+                                # len(dataset): cut.  An arm that is the bare total_size (the per-rank multiple, padded or
+                                # truncated - not the dataset length unless it divides evenly): not cut.  Anything else (max / min
+                                # / arithmetic over several sizes): not decided
+                                pf_ = C.lookup(up[1])
+                                if pf_ is not None and any(getattr(d_, "id", "") == "property" for d_ in pf_.node.decorator_list):
+                                    pfa_ = fa_of(prog, pf_)
+                                    arms_ = []
+
+                                    def _arms(t_):
+                                        if isinstance(t_, tuple) and t_ and t_[0] == "ifexp":
+                                            _arms(t_[2]); _arms(t_[3])
+                                        else:
+                                            arms_.append(t_)
+                                    for rn_, _v in pfa_.returns():
+                                        _arms(pfa_.sym.term(pfa_.ret_ast(rn_)[0], rn_))
+                                    if arms_ and all(a_ == size_t_ for a_ in arms_):
+                                        up = size_t_
+                                    elif arms_ and not any(a_ == ("self", "total_size") for a_ in arms_):
+                                        cut_open = True
+                            cut = cut or up == size_t_
             kw_ok = any(k.arg == "repeats" and fa.sym.term(k.value, rn) == ("self", "num_repeats") for k in reps[0][1].keywords) \
                 or (reps[0][1].args and fa.sym.term(reps[0][1].args[0], rn) == ("self", "num_repeats"))
             # a draw shortened *before* it is repeated must still fill the dataset length: perm[:T] with T = ceil(len / repeats)
@@ -241,7 +264,7 @@ def run(prog: Program, rep: Report, tier: str):
                                 f"times: the repeated draw no longer fills the dataset length (too few distinct samples per epoch; the "
                                 f"remainder is filled by wrapping around)")
                 rep.decide(okT, "G8.repeat-before-split", fi, "pre-repeat-cut", whyT, whyT, line=fa.line(rn), clause="C12.5")
-            rep.decide(dom and cut and kw_ok, "G8.repeat-before-split", fi, "repeat",
+            rep.decide(None if (dom and kw_ok and not cut and cut_open) else (dom and cut and kw_ok), "G8.repeat-before-split", fi, "repeat",
                        "repeat_interleave(num_repeats)[:len(dataset)] dominates the rank split",
                        "; ".join(x for x in (None if dom else "repeat_interleave does not precede the rank split",
                                              None if cut else "the repeated draw is not cut back to len(self.dataset)",
